@@ -145,6 +145,9 @@ func (H) Gen(prop string, rng *rand.Rand, tier string) *core.Plan {
 	p.Ops = append(p.Ops, core.Op{K: "flush"}, core.Op{K: "query", S: fmt.Sprint(rng.Intn(1 << 30))}, core.Op{K: "query", S: fmt.Sprint(rng.Intn(1 << 30))})
 	p.Cfg["maporder"] = rng.Intn(2) // tape-chosen iteration order of Go maps in the code under test
 	p.Cfg["fieldmodes"] = rng.Intn(2)
+	if prop == "C10" {
+		p.Cfg["odd"] = rng.Intn(2) // tag values starting with '~' / containing a comma, filters that print alike
+	}
 	if prop == "C11" {
 		p.Cfg["multi"] = rng.Intn(2) // statements may select two columns
 		p.Cfg["families"] = 1 + rng.Intn(2) // points of one or two hours: one or two data families per shard
@@ -182,6 +185,7 @@ func atoi(s string) int64 {
 }
 
 func (H) Run(c *core.RunCtx) {
+	oddMode = c.Plan.C("odd", 0) == 1
 	switch c.Plan.Prop {
 	case "C07":
 		runC07(c)
@@ -244,6 +248,11 @@ func (r *run) genSeries() {
 	ns := r.c.Plan.C("nseries", 4)
 	for i := 0; i < ns; i++ {
 		s := seriesDef{id: fmt.Sprintf("s%02d", i), host: hosts[rng.Intn(len(hosts))], zone: zones[rng.Intn(len(zones))], app: apps[rng.Intn(len(apps))]}
+		if oddMode && i%4 == 1 {
+			s.app = "~^svc"
+		} else if oddMode && i%4 == 2 {
+			s.app = "svc,db"
+		}
 		r.series = append(r.series, s)
 		r.shardOf = append(r.shardOf, rng.Intn(r.shards))
 	}
@@ -569,6 +578,9 @@ func genAtom(rng *rand.Rand) cond {
 		pool = []string{"eu", "eu-west", "us", "asia"}
 	case "app":
 		pool = []string{"svc", "svc2", "db", "none"}
+		if oddMode {
+			pool = append(pool, "~^svc", "svc,db")
+		}
 	default:
 		pool = []string{"s00", "s01", "s02", "s05", "s10", "s99"}
 	}
@@ -598,7 +610,24 @@ func genAtom(rng *rand.Rand) cond {
 	}
 }
 
+// oddMode (plans with cfg odd=1): tag values that begin with '~' or contain a comma exist, and conditions hold pairs
+// of different filters that read the same once printed (app='~^svc' / app=~'^svc', in ('svc','db') / in ('svc,db')).
+// Set by Run from the plan before anything is generated.
+var oddMode bool
+
 func genCond(rng *rand.Rand, depth int) cond {
+	if oddMode && rng.Intn(5) == 0 {
+		var a, b cond
+		if rng.Intn(2) == 0 {
+			a, b = atom{"app", "=", []string{"~^svc"}}, atom{"app", []string{"=~", "!~"}[rng.Intn(2)], []string{"^svc"}}
+		} else {
+			a, b = atom{"app", "in", []string{"svc", "db"}}, atom{"app", []string{"in", "not in"}[rng.Intn(2)], []string{"svc,db"}}
+		}
+		if rng.Intn(2) == 0 {
+			a, b = b, a
+		}
+		return binary{a, b, rng.Intn(2) == 0}
+	}
 	if depth <= 0 || rng.Intn(3) == 0 {
 		return genAtom(rng)
 	}
